@@ -521,8 +521,15 @@ def length_goal(gid, case, ends, L, valid, size):
     lo, hi = box(h["centre"], BOXW * size)
     if h["sin2"] < 1e-12:
         # half circle to within rounding: cos = -1 +- 1e-12, acos is evaluated at the end of its domain where the
-        # atan form is not available; decided by the direct oracle only (see notes), counted as boundary
-        return (gid, "length-halfcircle", None)
+        # atan form is not available: the angle is enclosed between acos(-1 + 1e-10) = pi - 1.4e-5 and pi by
+        # monotonicity (a3_len_at_near_pi), which decides the length to 2e-5 relative only (counted as boundary;
+        # the direct oracle checks these cases to 1e-6)
+        stmt = "Rabs (arc_edge_length tol_const %s %s %s - %s) <= %s" % (cps, cpb, cpe, R_(L), R_(2e-5 * max(abs(L), size)))
+        inner = ("apply (a3_len_at_near_pi _ _ _ _ _ _ %s); [ %s; split; %s | %s; %s | %s; %s | %s; %s ]"
+                 % (R_(-1 + 1e-10), CBV, IV, CBV, IV, CBV, IV, CBV, IV))
+        staged = ("apply (a3_length_staged _ _ _ _ _ %s %s); [ %s; %s | intros x y z Hx Hy Hz; %s ]" % (lo, hi, CBV, IVBOX, inner))
+        tac = "apply arc_edge_length_valid; [ %s; %s | %s; %s | %s ]" % (CBV, IV, CBV, IV, staged)
+        return (gid, "length-halfcircle", P.goal(gid, stmt, tac))
     if abs(h["q"]) < 1e-9:
         branch, what = "a3_len_at_either", "length-boundary"
     elif h["q"] < 0:
@@ -571,7 +578,7 @@ def origin_hints(case):
         return float(radius), floor, [float(x) for x in centre]
 
 
-def coq_goals(case, ob, gid_base):
+def coq_goals(case, ob, gid_base, quick=False):
     """Returns list of (gid, what, text or None)."""
     goals = []
     k = case["kind"]
@@ -615,6 +622,10 @@ def coq_goals(case, ob, gid_base):
         ends = (case["p1"], ob["third"], case["p3"])
     elif k == "arc3":
         ends = (case["ps"], case["pb"], case["pe"])
+        if case["psi"] > math.pi and abs(ob["length"] - case["expect_len"]) <= len_tol(case, case["expect_len"])[0]:
+            # the region of the open finding (C08_three_point_late: the model measures the complementary arc); an
+            # implementation that reports radius*angle here has repaired the finding and is not held to the model
+            return [(gid_base + 1, "length-late-point-as-specified", None)]
     elif k == "poly":
         pts = [case["v1"]] + case["points"] + [case["v2"]]
         stmt = "Rabs (polyline_length [%s] - %s) <= %s" % ("; ".join(P.vec(p) for p in pts), R_(ob["length"]), R_(REL * max(size, ob["length"])))
@@ -624,6 +635,8 @@ def coq_goals(case, ob, gid_base):
         return [g]
     else:
         return goals
+    if quick and k == "theta" and case.get("stratum") in ("minor", "small", "large") and (gid_base // 10) % 2 == 1:
+        return goals  # quick tier: the length of every second plain angle/axis arc is left to the direct oracle
     g = length_goal(gid_base + 1, case, ends, ob["length"], ob.get("valid", True), size)
     if g:
         goals.append(g)
@@ -660,7 +673,8 @@ CORPUS = [
 class C08(Prop):
     pid = "C08"
     title = "Alternative arc specifications equal the analytic circle"
-    prebuilt = ["Base/Vec3.v", "Model/C08_Arcs.v", "Proofs/C08_Theta.v", "Proofs/C08_Chord.v", "Proofs/C08_ThreePoint.v", "Proofs/C08_Corr.v"]
+    prebuilt = ["Base/Vec3.v", "Model/C08_Arcs.v", "Proofs/C08_Theta.v", "Proofs/C08_Chord.v", "Proofs/C08_ThreePoint.v", "Proofs/C08_Corr.v",
+                "Proofs/C08_Circle.v", "Proofs/C08_Length.v", "Proofs/C08_Reflex.v"]
     gen_dependent_files = ["Gen/C08/Consts.v"]
     property_files = ["Properties/C08.v"]
     trusted = [
@@ -672,12 +686,15 @@ class C08(Prop):
         "constants.TOL is read from the working tree into Gen/C08/Consts.v on every run",
     ]
     partial = [
-        "C08_three_point_length_partial: proved when the given point lies less than half a turn after the start point "
-        "(always true for arcs of at most half a turn and for the mid points produced by the angle and origin conversions); "
-        "for later points the statement is false of the code (C08_three_point_late_refuted; blockMesh itself reads such an "
-        "arc the same way)",
-        "C08_chord_bound_curve_partial: curve edges measure a polyline through sampled curve points; the bound is proved for "
-        "that polyline (between the sampled end points), the position of the sampled end points on the vertices is C16/C17",
+        "C08_three_point_length_partial: radius*angle is proved when the given point lies less than half a turn after the "
+        "start point (always true for arcs of at most half a turn and for the points written by the angle and origin "
+        "conversions); for later points the full statement C08_three_point_length_stmt is false of the code "
+        "(C08_three_point_length_refuted, C08_three_point_late: the complementary arc is measured, as blockMesh does)",
+        "C08_chord_bound: arc edges of all kinds and polylines (spline, polyLine); OnCurve edges measure a polyline through "
+        "sampled curve points, the bound holds for that polyline between the sampled end points; that those coincide with the "
+        "vertices is C16/C17 (checked here by the direct oracle only)",
+        "C08_origin: stated for origin = centre of the circle through the end points (flatness 1, included angle < pi); "
+        "the adjusted-centre and flatness branches are covered by the correspondence and the oracle only",
     ]
 
     def generate(self, ctx):
@@ -694,7 +711,7 @@ class C08(Prop):
     def make_cases(self, ctx):
         rng = ctx.rng
         cases = [dict(c) for c in CORPUS]
-        n = ctx.n(80, 2400)
+        n = ctx.n(56, 1500)
         for s in ("minor", "reflex", "near_pi", "pi", "small", "large"):
             for _ in range(3):
                 cases.append(gen_theta(rng, s))
@@ -702,9 +719,13 @@ class C08(Prop):
             cases.append(gen_theta(rng))
         for _ in range(max(6, n // 15)):
             cases.append(gen_helix(rng))
-        for _ in range(n // 2):
+        for s in ("off_centre", "off_centre", "off_centre", "flat", "flat", "flat", "flat"):
+            cases.append(gen_origin(rng, s))
+        for _ in range(n // 2 - 7):
             cases.append(gen_origin(rng))
-        for _ in range(n // 2):
+        for s in ("minor", "reflex_early", "reflex_mid", "reflex_late", "near_pi"):
+            cases.append(gen_arc3(rng, s))
+        for _ in range(n // 2 - 5):
             cases.append(gen_arc3(rng))
         for _ in range(max(20, n // 6)):
             cases.append(gen_poly(rng))
@@ -736,7 +757,7 @@ class C08(Prop):
             bad = oracle(case, ob)
             if bad:
                 res.oracle_failures.append(dict(kind=case["kind"], case=case, observed=ob, sig=bad[0], why=bad[1]))
-            for (gid, what, text) in coq_goals(case, ob, 10 * i):
+            for (gid, what, text) in coq_goals(case, ob, 10 * i, ctx.quick):
                 res.count("goal=" + what)
                 if what in ("length-boundary", "length-halfcircle"):
                     res.boundary += 1
@@ -747,7 +768,7 @@ class C08(Prop):
         res.evaluations += 5
         res.samples = [dict(case=cases[i], observed=obs[i]) for i in (0, 2, len(cases) // 2, len(cases) - 1)]
         # shard: at most 16 files in the quick tier, goals dealt round-robin so that the files are balanced
-        nshards = min(16, max(1, len(goals) // 12)) if ctx.quick else max(16, len(goals) // 60)
+        nshards = min(12, max(1, len(goals) // 12)) if ctx.quick else max(16, len(goals) // 60)
         shards = [("cases_%d" % k, HEADER + "\n".join(g[3] for g in goals[k::nshards])) for k in range(nshards)]
         seen = {}
         for (name, rc, so, se) in core.run_cases_parallel(ctx, shards, timeout=600):
